@@ -77,6 +77,21 @@ theorem stack_ranks {d : Doc V E} {filt : Nat → List Nat} {rank : Nat → Nat}
       simp only [bnd] at h1 h2 ⊢
       omega
 
+/-- the stack is never deeper than the ranks allow: `stack.length + bnd stack ≤ N` -/
+theorem stack_depth {d : Doc V E} {filt : Nat → List Nat} {rank : Nat → Nat} {N : Nat} {a : Nat → Nat → Res V E} :
+    ∀ (stack : List (Frame V E)) (v : Res V E) (cur : Prog V E), StackOK d filt rank N a v stack cur →
+      stack.length + bnd rank N stack ≤ N := by
+  intro stack
+  induction stack with
+  | nil => intro v cur _; simp [bnd]
+  | cons g rest ih =>
+    intro v cur h
+    simp only [StackOK] at h
+    have h1 := ih _ cur h.2.2
+    have h2 := h.2.1.get_inv.1
+    simp only [bnd, List.length_cons] at h1 h2 ⊢
+    omega
+
 theorem dataS_spec {d : Doc V E} {filt : Nat → List Nat} {a : Nat → Nat → Res V E} (cfg : Cfg) {sh : Shared V E}
     (hi : SInv d filt a sh) (r : Nat) :
     (dataS d cfg sh r (filt r)).1 = d.decode r (filt r) ∧ SInv d filt a (dataS d cfg sh r (filt r)).2 ∧
@@ -214,7 +229,7 @@ theorem afterLookup_spec (wf : WF d filt rank) (hN : ∀ r, rank r < N) (cfg : C
 
 /-- **Step lemma.** A transition of one thread (own guard stack) keeps the thread invariant and the
     invariant of the shared caches. -/
-theorem stepT_inv (wf : WF d filt rank) (hN : ∀ r, rank r < N) {cfg : Cfg} (hg : cfg.sharedGuard = false)
+theorem stepT_inv (wf : WF d filt rank) (hN : ∀ r, rank r < N) (hD : N ≤ maxNestedGets) {cfg : Cfg} (hg : cfg.sharedGuard = false)
     {i : Nat} {sh sh' : Shared V E} {t t' : Thread V E} {cs : List (Prog V E)}
     (hcalls : ∀ p ∈ cs, Fine filt (fun r' => rank r' < N) p)
     (hc : ChainOK t) (ht : TInv d filt rank N (ans d rank) cs t) (hi : SInv d filt (ans d rank) sh)
@@ -255,7 +270,13 @@ theorem stepT_inv (wf : WF d filt rank) (hN : ∀ r, rank r < N) {cfg : Cfg} (hg
       have h1 := stack_ranks hN stack _ cur hst f hf
       have h2 := hp.get_inv.1
       omega
-    simp only [hnot, if_false, Option.some.injEq, Prod.mk.injEq] at hs
+    have hdeep : ¬ maxNestedGets ≤ chain.length := by
+      have h1 := stack_depth stack _ cur hst
+      have h2 := hp.get_inv.1
+      rw [hch]
+      simp only [keys, List.length_map]
+      omega
+    simp only [hnot, hdeep, if_false, Option.some.injEq, Prod.mk.injEq] at hs
     rw [← hs.1, ← hs.2]
     refine ⟨⟨done, hout, ?_⟩, hi⟩
     simp only [resid]
@@ -421,7 +442,7 @@ theorem init_GInv {d : Doc V E} {filt : Nat → List Nat} {rank : Nat → Nat} {
   simp [Thread.init, resid, Ctl.isFinal]
 
 theorem step_GInv {d : Doc V E} {filt : Nat → List Nat} {rank : Nat → Nat} {N : Nat} (wf : WF d filt rank)
-    (hN : ∀ r, rank r < N) {cfg : Cfg} (hg : cfg.sharedGuard = false) {css : List (List (Prog V E))}
+    (hN : ∀ r, rank r < N) (hD : N ≤ maxNestedGets) {cfg : Cfg} (hg : cfg.sharedGuard = false) {css : List (List (Prog V E))}
     (hcalls : ∀ cs ∈ css, ∀ p ∈ cs, Fine filt (fun r' => rank r' < N) p)
     {s s' : State V E} {i : Nat} (h : GInv d filt rank N css s) (hs : step d cfg s i = some s') :
     GInv d filt rank N css s' := by
@@ -442,7 +463,7 @@ theorem step_GInv {d : Doc V E} {filt : Nat → List Nat} {rank : Nat → Nat} {
         exact (List.getElem?_eq_some_iff.mp hti).1
       have hcsi : css[i]? = some css[i] := List.getElem?_eq_getElem hi
       have hold := hth i t css[i] hti hcsi
-      have hnew := stepT_inv wf hN hg (hcalls css[i] (List.getElem_mem hi)) hold.1 hold.2 hsh hst
+      have hnew := stepT_inv wf hN hD hg (hcalls css[i] (List.getElem_mem hi)) hold.1 hold.2 hsh hst
       refine ⟨hnew.2, by simp [hlen], ?_⟩
       intro j u cs hu hcs
       simp only [List.getElem?_set] at hu
@@ -460,11 +481,11 @@ theorem step_GInv {d : Doc V E} {filt : Nat → List Nat} {rank : Nat → Nat} {
       · exact hth j u cs hu hcs
 
 theorem reachable_GInv {d : Doc V E} {filt : Nat → List Nat} {rank : Nat → Nat} {N : Nat} (wf : WF d filt rank)
-    (hN : ∀ r, rank r < N) {cfg : Cfg} (hg : cfg.sharedGuard = false) {css : List (List (Prog V E))}
+    (hN : ∀ r, rank r < N) (hD : N ≤ maxNestedGets) {cfg : Cfg} (hg : cfg.sharedGuard = false) {css : List (List (Prog V E))}
     (hcalls : ∀ cs ∈ css, ∀ p ∈ cs, Fine filt (fun r' => rank r' < N) p)
     {s0 s : State V E} (h0 : GInv d filt rank N css s0) (hr : Reachable d cfg s0 s) : GInv d filt rank N css s := by
   induction hr with
   | init => exact h0
-  | step i _ hs ih => exact step_GInv wf hN hg hcalls ih hs
+  | step i _ hs ih => exact step_GInv wf hN hD hg hcalls ih hs
 
 end Conc
